@@ -1260,6 +1260,17 @@ class Analyzer:
         return new
 
     # query API ------------------------------------------------------------
+    def state_at(self, bi, si):
+        """abstract state just before statement `si` of block `bi`"""
+        self.run()
+        st0 = self.entry.get(bi)
+        if st0 is None or self.bailed:
+            return None
+        st = st0.copy()
+        for i, s in enumerate(self.fn.blocks[bi]["st"][:si]):
+            self.transfer_stmt(st, s, (bi, i))
+        return st
+
     def state_before_term(self, bi):
         self.run()
         return self.pre.get(bi)
